@@ -3,11 +3,13 @@
 (* of the NN*NN possible edges incl. self-loops, edge labels from Labels), all value     *)
 (* vectors and all external events.                                                      *)
 EXTENDS Integers, Sequences, FiniteSets, TLC
-CONSTANTS ResetOnError, NN, Mode
+CONSTANTS ResetOnError, ZeroTimerGuarded, NN, Mode, KindSet
 VARIABLES g, vals, res
 G == INSTANCE Guard
 Nodes == 1..NN
-Kinds == {"fwd", "chg", "tgl"}
+Kinds == CASE KindSet = "z" -> {"fwd", "tgl", "ztg"}
+          [] KindSet = "classic" -> {"fwd", "chg", "tgl"}
+          [] OTHER -> {"fwd", "chg", "tgl", "ztg"}
 Plain == [trig |-> "out", filter |-> "pass", cond |-> "none"]
 Labels == IF Mode = "plain" THEN {Plain}
           ELSE {Plain, [trig |-> "every", filter |-> "pass", cond |-> "none"],
